@@ -17,7 +17,7 @@ Terms (nested tuples):
   ("agg", adt, variant, (ops..)) ("tuple", (ops..)) ("array", (ops..)) ("closure", def, (caps..))
   ("discr", x) ("binop", op, a, b) ("unop", op, a) ("cast", x)
   ("ts", (tokens..)) ("alt", ((guards, term)..)) ("opt", cond, payload) ("then", cond, payload)
-  ("itermap", src, body) ("some", x) ("item", x) ("unknown", why) ("cycle", l) ("undef", l)
+  ("itermap", src, body) ("some", x) ("item", x) ("unknown", why) ("cycle", l, frame) ("undef", l)
 Tokens:
   ("id", s) ("p", s) ("lit", s) ("grp", delim, (tokens..)) ("hole", term, impl) ("rep", (tokens..))
   ("cond", guards, (tokens..)) ("?", callee)
@@ -44,6 +44,7 @@ RX_TSNEW = re.compile(r"^proc_macro2::TokenStream::new$")
 RX_OPTMAP = re.compile(r"option::Option::<T>::map$")
 RX_THEN = re.compile(r"bool::<impl bool>::then$")
 RX_THENSOME = re.compile(r"bool::<impl bool>::then_some$")
+RX_MAPOR = re.compile(r"option::Option::<T>::map_or(_else)?$")
 RX_ITERMAP = re.compile(r"iter::Iterator::map$")
 RX_NEXT = re.compile(r"iter::Iterator::next$")
 RX_VECNEW = re.compile(r"vec::Vec::<T>::(new|with_capacity)$")
@@ -250,6 +251,25 @@ def flat_arms(t, pre=()):
     return out
 
 
+def lift_alts(t, limit=64):
+    """`Ok(match x {a => A, b => B})` as `match x {a => Ok(A), b => Ok(B)}`: alternatives inside the fields of an
+    aggregate are moved outside it (so that `let v = match ..; Ok(v)` reads like a match whose arms build Ok)."""
+    if t[0] == "alt":
+        return ("alt", tuple((g, lift_alts(x, limit)) for g, x in t[1]))
+    if t[0] != "agg":
+        return t
+    ops = [lift_alts(o, limit) for o in t[3]]
+    combos = [((), ())]
+    for o in ops:
+        arms = flat_arms(o) if o[0] == "alt" else [((), o)]
+        combos = [(g0 + tuple(g), v0 + (v,)) for g0, v0 in combos for g, v in arms]
+        if len(combos) > limit:
+            return t
+    if len(combos) == 1:
+        return ("agg", t[1], t[2], tuple(ops))
+    return ("alt", tuple((g, ("agg", t[1], t[2], v)) for g, v in combos))
+
+
 def path_of(t):
     """("param", i, name).a.b  ->  (i, ("a","b")); derefs/casts are transparent.  None if not a pure path."""
     names = []
@@ -368,6 +388,20 @@ def is_str_to_string(t):
     return bool(re.search(r"convert::(From::from|Into::into)$", t[1]) and t[3] and RX_STRFROM.search(t[3]))
 
 
+TRY_VARIANT = {("Option", "Continue"): "Some", ("Option", "Break"): "None", ("Result", "Continue"): "Ok", ("Result", "Break"): "Err"}
+
+
+def try_kind(t):
+    """"Option" / "Result" if the term is `Try::branch(x)` of such a value (the scrutinee of `x?`)."""
+    if t[0] == "call" and t[1].endswith("ops::Try::branch") and len(t[2]) == 1:
+        r = t[3] or ""
+        if r.startswith("<std::option::Option<"):
+            return "Option"
+        if r.startswith("<std::result::Result<"):
+            return "Result"
+    return None
+
+
 def mk_item(y):
     y = strip_plumb(y)
     if y[0] == "call" and RX_QITER.search(y[1]):
@@ -396,7 +430,12 @@ def mk_some(x):
 
 # --------------------------------------------------------------------------- evaluator
 class Frame:
+    _count = 0
+
     def __init__(self, fn, args=None, caps=None, depth=0):
+        Frame._count += 1
+        self.fid = Frame._count     # identity of this evaluation of fn (names its loop-carried locals)
+        self.cyc = set()
         self.fn = fn
         self.args = args or {}
         self.caps = caps
@@ -412,6 +451,7 @@ class QuoteEval:
         self._roots = {}
         self._rpo = {}
         self.inlined = []       # (caller id, callee id)
+        self.loops = {}         # (local, frame id) -> term of a loop-carried local (binds the ("cycle", local, frame id) inside it)
 
     # ---- per-function caches
     def rpo(self, fn):
@@ -549,9 +589,17 @@ class QuoteEval:
                 val = "|".join(str(v) for v in vals) if vals else "otherwise"
             if scrut[0] == "lit":
                 continue
+            tk = try_kind(scrut)
+            if tk and val in ("Continue", "Break"):
+                # `x?` continues iff x is Some / Ok: a condition on x itself, as `match x` / `if let` would state it
+                scrut, val = scrut[2][0], TRY_VARIANT[(tk, val)]
             out.append((self.rpo(fn).get(sbb, 0), (scrut, val)))
         out.sort(key=lambda x: x[0])
-        res = tuple(g for _, g in out)
+        res = []
+        for _, g in out:
+            if g not in res:     # the same test made twice (`if let A = x {..}` followed by `let B = x else {..}`) is one condition
+                res.append(g)
+        res = tuple(res)
         frame.memo[("g", b)] = res
         return res
 
@@ -598,6 +646,10 @@ class QuoteEval:
             return t[1][i]
         if k == "as":
             inner = t[1]
+            tk = try_kind(inner)
+            if tk and t[2] == "Continue" and i == 0:
+                # the value of `x?`: the payload of x's Some / Ok
+                return self.proj(frame, ("as", inner[2][0], TRY_VARIANT[(tk, "Continue")]), 0, name)
             if inner[0] == "agg" and inner[2] == t[2] and i < len(inner[3]):
                 return inner[3][i]
             if t[2] == "Some" and i == 0:
@@ -622,13 +674,16 @@ class QuoteEval:
         if l in frame.memo:
             return frame.memo[l]
         if l in frame.busy:
-            return ("cycle", l)
+            frame.cyc.add(l)
+            return ("cycle", l, frame.fid)
         frame.busy.add(l)
         try:
             t = self._ev_local(frame, l)
         finally:
             frame.busy.discard(l)
         frame.memo[l] = t
+        if l in frame.cyc:
+            self.loops[(l, frame.fid)] = t      # a loop-carried local: its value mentions ("cycle", l, fid), i.e. itself
         return t
 
     def _ev_local(self, frame, l):
@@ -788,12 +843,21 @@ class QuoteEval:
                 return ("then", args[0], body)
         if RX_THENSOME.search(c) and len(args) == 2:
             return ("then", args[0], args[1])
+        m = RX_MAPOR.search(c)
+        if m and len(args) == 3:
+            # x.map_or(d, f) / x.map_or_else(|| d, f)  ==  x.map(f).unwrap_or(d): written in that canonical form
+            body = self.closure_ret(frame, args[2], mk_some(args[0]))
+            dflt = args[1] if not m.group(1) else self.closure_ret(frame, args[1], None)
+            if body is not None and dflt is not None:
+                return ("call", "std::option::Option::<T>::unwrap_or", (("opt", args[0], body), dflt), None, bb)
         if RX_ITERMAP.search(c) and len(args) == 2:
             body = self.closure_ret(frame, args[1], mk_item(args[0]))
             if body is not None:
                 return ("itermap", args[0], body)
         if RX_QITER.search(c) and args:
             return ("tuple", (args[0], ("lit", '"HasIterator"')))
+        if c.endswith("ops::FromResidual::from_residual") and re.match(r"<std::option::Option<", t.get("resolved") or ""):
+            return ("agg", "std::option::Option", "None", ())   # what `x?` returns for an absent Option
         # crate-local helper that returns a token stream: evaluate its body with the arguments bound
         target = t.get("resolved") if t.get("resolved") in self.facts.F else (c if c in self.facts.F else None)
         dty = frame.fn.local_ty(t["dest"]["l"]) if not t["dest"]["p"] else ""
